@@ -26,6 +26,8 @@ PASS_LAST = (
     "overflowing_add", "overflowing_sub", "pow", "abs", "unsigned_abs",
     # lexeme -> number conversion of the lexer (Substr::to::<T>)
     "to",
+    # collection building: the result derives from the elements
+    "collect", "from_iter", "box_assume_init_into_vec_unsafe", "into_boxed_slice", "write", "new_uninit",
 )
 
 
@@ -61,6 +63,34 @@ class Flow:
                             if e[0] == "index":
                                 self.uses.setdefault(e[1], []).append(("callarg", bi, t, k))
 
+        # `vec![a, b]` initialises a boxed array through a raw pointer cast from the Box:
+        # attribute such stores to the Box they point into
+        for l, ds in list(self.defs.items()):
+            if body["locals"][l]["k"] != "ptr":
+                continue
+            stores = [d for d in ds if d[0] == "assign" and d[3] and d[3][0][0] == "deref"]
+            if not stores:
+                continue
+            bases = set()
+            st = [l]
+            seen = set()
+            while st:
+                x = st.pop()
+                if x in seen:
+                    continue
+                seen.add(x)
+                for d in self.defs.get(x, []):
+                    if d[0] == "assign" and not d[3] and d[2][0] in ("use", "cast", "rawptr", "ref"):
+                        src = d[2][1] if d[2][0] != "cast" else d[2][2]
+                        pl = src[1] if d[2][0] in ("use", "cast") and src[0] in ("copy", "move") else (src if d[2][0] in ("rawptr", "ref") else None)
+                        if pl is not None:
+                            st.append(pl[0])
+                            if body["locals"][pl[0]]["s"].startswith("std::boxed::Box<"):
+                                bases.add(pl[0])
+            for bse in bases:
+                for d in stores:
+                    self.defs.setdefault(bse, []).append(("assign", d[1], d[2], [["deref"]]))
+
     # ---- backward ----------------------------------------------------------
     def origins(self, local, passthrough=PASS_LAST, fields=None, stop_calls=(), at=None, cfg=None, stores=False):
         """atoms the local can derive from: ("call", name, bb, term) / ("arg", n) /
@@ -80,9 +110,10 @@ class Flow:
             seen.add((l, here))
             st.here = here
             ds = self.defs.get(l, [])
-            if not stores:
+            if not stores and not self.body["locals"][l]["s"].startswith("std::boxed::Box<"):
                 # a store *through* a reference (`(*p)[i] = x`, `(*p).f = x`) changes the pointee,
-                # it does not redefine the reference
+                # it does not redefine the reference (a Box owns its pointee: `vec![a, b]` initialises
+                # the boxed array through the Box, so those stores do define the value)
                 ds = [d for d in ds if not (d[3] and d[3][0][0] == "deref")]
             if cfg is not None and here is not None:
                 ds = [d for d in ds if d[1] == here or cfg.can_reach(d[1], here)]
